@@ -136,6 +136,7 @@ func (e *Exec) run() {
 	c.compSort["$clk"] = c.intS()
 	entry := c.newBase()
 	c.entry = entry
+	c.fact(fmt.Sprintf("(not (select %s nil))", c.hget(entry, "$alloc")))
 	// parameters
 	for _, p := range fn.Params {
 		v := c.freshVal("p_"+p.Name(), p.Type())
@@ -541,6 +542,7 @@ func (e *Exec) enterLoop(li *loopInfo, st State) State {
 
 func (c *Ctx) allocMonotone(old, new *Heap) {
 	c.fact(fmt.Sprintf("(forall ((r Ref)) (! (=> (select %s r) (select %s r)) :pattern ((select %s r))))", c.hget(old, "$alloc"), c.hget(new, "$alloc"), c.hget(new, "$alloc")))
+	c.fact(fmt.Sprintf("(not (select %s nil))", c.hget(new, "$alloc")))
 }
 
 func (e *Exec) closeLoop(li *loopInfo) {
@@ -597,8 +599,10 @@ func (e *Exec) loopModifies(li *loopInfo) (map[string]bool, bool) {
 					e.typeComps(deref(a.Type()), comps)
 				}
 				if ms, ok := x.(*ssa.MakeSlice); ok {
-					e.typeComps(ms.Type().Underlying().(*types.Slice).Elem(), comps)
-					comps[c.elemCompFor(ms.Type().Underlying().(*types.Slice).Elem())] = true
+					et := ms.Type().Underlying().(*types.Slice).Elem()
+					if isStruct(et) {
+						e.typeComps(et, comps)
+					}
 				}
 			case *ssa.Send, *ssa.Select, *ssa.Go, *ssa.RunDefers:
 				all = true
@@ -1396,6 +1400,7 @@ func (e *Exec) execReturn(x *ssa.Return, st *State) {
 		g := e.evalBool(sc, en)
 		c.oblige("post", fmt.Sprintf("post[%d]@ret%d", i+1, e.retCount), st.pc, g, "postcondition: "+en.Src, e.pos(x.Pos()))
 	}
+	e.checkRefines(st, results, x.Pos())
 	if e.panicsOK != "" {
 		c.oblige("post", fmt.Sprintf("must-panic@ret%d", e.retCount), st.pc, not(e.panicsOK), "function returns normally only when its panics-condition is false", e.pos(x.Pos()))
 	}
@@ -1452,8 +1457,13 @@ func (e *Exec) immutableGlobal(g *ssa.Global) (Val, bool) {
 						}
 						st, isStore := ins.(*ssa.Store)
 						if isStore && st.Addr == ssa.Value(g) && f.Name() == "init" && f.Parent() == nil {
+							switch st.Val.(type) {
+							case *ssa.MakeClosure, *ssa.Function:
+								nonNil = true
+							}
 							if call, ok := st.Val.(*ssa.Call); ok {
-								if sc := call.Common().StaticCallee(); sc != nil && (sc.String() == "errors.New" || sc.String() == "fmt.Errorf") {
+								if sc := call.Common().StaticCallee(); sc != nil && (sc.String() == "errors.New" || sc.String() == "fmt.Errorf" || strings.HasPrefix(sc.String(), zapMod+"/internal/pool.New[")) {
+									// errors.New, fmt.Errorf and pool.New (which returns &Pool{...}) never return nil
 									nonNil = true
 								}
 							}
@@ -1503,6 +1513,50 @@ func (e *Exec) immutableGlobal(g *ssa.Global) (Val, bool) {
 	if nonNil && s == SIface {
 		c.decl("gconst-nonnil:"+n, fmt.Sprintf("(assert (not (= (if_tag %s) 0)))", n))
 	}
+	if nonNil && s == SFn {
+		c.decl("gconst-nonnil:"+n, fmt.Sprintf("(assert (not (= %s nilfn)))", n))
+	}
+	if nonNil && s == SRef {
+		c.decl("gconst-nonnil:"+n, fmt.Sprintf("(assert (not (= %s nil)))", n))
+	}
 	c.immGlobals[g] = &v
 	return v, true
+}
+
+// checkRefines: the function must establish the postconditions of the interface method
+// contracts it is declared to refine (callers through the interface rely only on those).
+func (e *Exec) checkRefines(st *State, results []Val, pos token.Pos) {
+	c := e.c
+	for _, id := range e.con.Refines {
+		icon := c.CS.ByID["iface "+id]
+		if icon == nil {
+			e.unsupported("refines %s: no such interface contract", id)
+		}
+		if len(e.fn.Params) == 0 {
+			e.unsupported("refines %s: function has no receiver", id)
+		}
+		recv := e.env[e.fn.Params[0]]
+		binder := map[string]Val{}
+		tag := c.typeTag(e.fn.Params[0].Type())
+		binder["self"] = Val{T: fmt.Sprintf("(mk_Iface %d %s)", tag, c.box(recv)), S: SIface}
+		names := icon.Params
+		if len(names) == 0 {
+			for i := 1; i < len(e.fn.Params); i++ {
+				names = append(names, fmt.Sprintf("arg%d", i-1))
+			}
+		}
+		for i, n := range names {
+			if i+1 < len(e.fn.Params) {
+				binder[n] = e.env[e.fn.Params[i+1]]
+			}
+		}
+		sc := &Scope{e: e, c: c, cur: st.heap, old: c.entry, params: binder, names: map[string]Val{}, pkg: e.fn.Pkg.Pkg, tracks: map[string]*trackInfo{}, results: results}
+		for i, en := range icon.Ensures {
+			if mentionsTracks(en.E, icon) {
+				continue
+			}
+			g := e.evalBool(sc, en)
+			c.oblige("refine", fmt.Sprintf("refine[%s:%d]@ret%d", lastSeg(id), i+1, e.retCount), st.pc, g, "interface contract "+id+": "+en.Src, e.pos(pos))
+		}
+	}
 }
